@@ -3,7 +3,8 @@
 # libFuzzer campaign: 16 processes of fuzz/<target>, each a fixed -runs on its own corpus
 # directory (8 start from 200 generated seed inputs, 8 from an empty corpus), -seed derived
 # from VERIF_SEED. A crash (sanitizer report or failed oracle) leaves an artifact which
-# becomes the replay file. Writes a small JSON report. Exit 0/1/2.
+# becomes the replay file. Writes a small JSON report. Exit 0/1/2. Each process also stops after
+# FUZZ_MAX_SECONDS (default 600): reaching it only means fewer executed units (reported), never a verdict.
 set -u
 TARGET="$1"; PROP="$2"; SEED="$3"; OUT="$4"
 cd /verif
@@ -20,7 +21,7 @@ for i in $(seq 0 15); do
   mkdir -p "$W/c$i" "$W/a$i"
   if [ $((i % 2)) -eq 0 ]; then cp "$W/seeds"/* "$W/c$i/"; fi
   s=$(( (SEED % 1000000) * 16 + i + 1 ))
-  "$BIN" "$W/c$i" -runs="$RUNS" -seed="$s" -len_control=0 -max_len=1100 -rss_limit_mb=8000 -timeout=120 \
+  "$BIN" "$W/c$i" -runs="$RUNS" -seed="$s" -len_control=0 -max_len=1100 -rss_limit_mb=8000 -timeout=120 -max_total_time="${FUZZ_MAX_SECONDS:-600}" \
      -artifact_prefix="$W/a$i/" -print_final_stats=1 >"$W/log$i" 2>&1 &
   pids+=($!)
 done
